@@ -3,9 +3,11 @@ import itertools
 import math
 from fractions import Fraction
 
+from .. import history
 from ..core import Op
 from ..rat import rat, frac, tol_eq
 from ..axis_common import guarded, f, fl, is_err, ulp_up, ulp_down, dy, rats
+from ..axis_common import canon_exc as _axis_exc
 
 PROPERTY = "C16"
 LEAN_MODULE = "Proofs.C16"
@@ -15,56 +17,95 @@ THEOREMS = [_T + n for n in [
     "C16_range_spec", "C16_index_unique", "C16_index_upper_edge", "C16_outside", "C16_index_spec",
     "C16_index_spec_determines", "C16_set_exact", "C16_set_value_at_pos", "C16_set_rejects",
     "C16_range_kernel", "C16_index_kernel", "C16_indexer_kernel", "C16_set_kernel", "C16_set_cell",
-    "C16_rule_at", "C16_count_robust"]]
+    "C16_rule_at", "C16_count_robust", "C16_call_forms", "C16_sig_extends", "C16_history", "C16_session"]]
 LEVEL_TEXT = ("Lean theorems over the rational model of create_range_dim / create_time_range / create_frequency_range "
               "(lattice, inside [start, stop), count for whole quotients and in general, step attribute; the trailing-point "
               "rule yields exactly n points whichever way rounding went inside arange, under an executable contract on "
               "numpy's output), of get_coord_index (the unique bin on a sorted axis, upper edge, raise or clamp outside; the "
               "executable statement determines the output) and of set_value_at_pos (end to end: an element holds the value "
-              "iff its multi-index is the bin of every queried position, every other element unchanged) hold for all inputs. "
+              "iff its multi-index is the bin of every queried position, every other element unchanged; over a session of "
+              "writes into one live array an element no call addressed keeps its content) hold for all inputs; the five "
+              "functions are one pure function of the content of their arguments, so an implementation with any state "
+              "agrees on every sequence of calls iff no reachable state changes an answer (C16_history); under a signature "
+              "table without repeated names every split of a call into positional arguments and keywords binds alike, "
+              "positional argument i to parameter i (C16_call_forms, C16_sig_extends). "
               "The straight-line code of all five functions around their library calls (step selection, the arange call, "
               "trailing-point guard and threshold, range test, clamp values, slice-bound side and offset, the indexer) is "
               "traced symbolically from the current source on every run and proved equal to the model's kernels for all "
-              "rationals (49 obligations, the lookup also on every axis of 2-D / 3-D arrays and on axes carrying a step "
-              "attribute, with stand-in arrays whose coordinates are registered in another order than their dimensions); "
-              "the library calls themselves are tied by exact differential runs (dyadic grids for ranges, arbitrary "
-              "floats for the comparison-only lookup, all small shapes for writes, and non-square 1-D to 3-D arrays built "
-              "along every construction path of xarray - coordinate order, transposition, dimensions without "
-              "coordinates, extra non-index coordinates, assign / Dataset / tuple forms, float32 / int64 axes - for "
-              "lookups and writes, the whole array compared after each write).")
+              "rationals (62 obligations: every way of giving the step, all-positional and all-keyword calls, the lookup "
+              "also on every axis of 2-D / 3-D arrays and on axes carrying a step attribute or arbitrary start / stop "
+              "attributes (the range of a lookup is that of the coordinates), with stand-in arrays whose "
+              "coordinates are registered in another order than their dimensions); the parameter tables of the five "
+              "functions are read off the imported code and proved to extend the documented tables (5 obligations); "
+              "the library calls themselves are tied by exact differential runs (dyadic grids for ranges incl. "
+              "tolerance-sized offsets around both thresholds and 2^k +- 1 coordinates, arbitrary floats for the "
+              "comparison-only lookup incl. every lattice point of non-dyadic axes of up to 4099 points, all small shapes "
+              "for writes, non-square 1-D to 3-D arrays built along every construction path of xarray incl. coordinates "
+              "with consistent or stale start / stop / step attributes, arrays out of the library's own extend / crop / "
+              "adjust helpers, every call form) "
+              "and by histories in one process (requests and their neighbours with results poisoned and re-read, lookups "
+              "on arrays whose coordinates are re-assigned, sessions of writes), every step judged by the model.")
 LEVEL_NOTE = ("Unmodelled: binary64 rounding inside numpy arange (hypothesis of C16_count_robust, evaluated exactly on what "
               "np.arange returned for steps such as 0.1, 1/3, 1/44100 and for steps derived from size= / samplerate=; "
               "coordinates additionally within 2^-40 of the lattice), pandas get_slice_bound (modelled as #{c <= v}; known "
               "finding C16-2: on a float32 axis pandas casts the query value to float32 first), numpy broadcasting rules "
               "beyond right-aligned equal-or-1.  The symbolic ties cover arrays of up to three dimensions; len() of a "
               "stand-in array / index answers with an opaque large number (a branch on the length itself is followed as "
-              "for a long axis; axes of 1-6 points are the differential runs' business); float32 coordinates with "
-              "decimal steps are monitored from start 0 only (count, step attribute, lattice up to float32 rounding); "
+              "for a long axis; axes of 1-6 points and of 15 ... 4099 points are the differential runs' business); float32 "
+              "coordinates with decimal steps are monitored from start 0 only (count, step attribute, lattice up to "
+              "float32 rounding); Python's argument binding is modelled (bindParams) and trusted to be Python's; "
+              "histories are sampled sequences of 3-5 calls (C16_history says what they decide, it does not enumerate "
+              "them); whether set_value_at_pos writes in place or on a copy is not pinned (the array returned carries "
+              "the write, the array given holds afterwards the same content or exactly what it held before); "
               "create_*_dim_from_array and set_dim_attrs are outside the model.")
 TECHNIQUE = ("Lean 4 proof over model; symbolic-trace equality obligations for the kernels of the range constructors, "
-             "get_coord_index and set_value_at_pos; exact differential correspondence; numpy-contract monitor for arange rounding")
+             "get_coord_index and set_value_at_pos; signature-table obligations; exact differential correspondence incl. "
+             "histories judged step by step; numpy-contract monitor for arange rounding")
 RULE = ("range requests on dyadic grids (all quotient fractions 0, 1/4, 1/2, 3/4; int / numpy-scalar arguments, float32 "
-        "coordinates), decimal-step monitor (step=, size=, samplerate=), lookups on float axes of 1-6 points with queries at, "
-        "between, next to and beyond coordinates (float / numpy / int query values, float32 and int64 axes), lookups on "
-        "range-constructor axes inside and within / beyond one step outside (raise and clamp), lookups on every axis of 13 "
+        "coordinates; +- 2^-20 / 2^-30 / 2^-40 of the magnitude around whole and half quotients at magnitudes 0 ... 2^30; "
+        "15 ... 4097 coordinates), every call form (0 ... all positional) x way of giving the step x dtype (type / string / "
+        "numpy dtype / code) x name x further attributes x number types incl. the size, decimal-step monitor (step=, size=, "
+        "samplerate=), lookups on float axes of 1-6 points with queries at, between, next to, 1e-6 ... 1e-12 from and beyond "
+        "coordinates (float / numpy / int query values, float32 and int64 axes; flag as bool / int / numpy bool / omitted; "
+        "every call form), every lattice point of axes with steps 0.01, 1/44100 (1025 points), 0.1, 1/3 (257) and every "
+        "coordinate of axes of 2^k - 1, 2^k, 2^k + 1 ... 4099 points, lookups on "
+        "range-constructor axes inside and within / beyond one step outside (raise and clamp; dimension named by a string "
+        "or the Dimensions member), lookups and writes on arrays that went through the library's own extend_dim / crop_dim "
+        "/ adjust_dim_range / set_dim_attrs and isel / sel / re-labelling afterwards (coordinates carrying eps-shifted or "
+        "stale `start` / `stop` attributes; queries also at the values the attributes mention), lookups on coordinates "
+        "with hand-made consistent / stale `start` / `stop` / `step` attributes, lookups on every axis of 13 "
         "non-square 2-D / 3-D shapes and writes on 14 shapes x every construction path (coordinate order, transposition, "
-        "dimensions without coordinates, extra coordinates, forms, dtypes), writes on every "
-        "shape with 1-3 axes of 1-3 points and a 4-D sample; non-trivial = the implementation returned a value; distinct = "
-        "distinct (operation, input)")
+        "dimensions without coordinates, extra coordinates, forms, dtypes, dimension names on other axes, coordinates with "
+        "`step` or `start` / `stop` / `step` attributes), writes on every "
+        "shape with 1-3 axes of 1-3 points and a 4-D sample; histories: range_history (120 / 1200 sequences of 3-5 requests - "
+        "a request, neighbours with the same numbers and another dtype / name / kind / call form / number type / "
+        "attributes or one number changed, the request again; returned Variables poisoned in place (data, attributes), "
+        "un-poisoned ones re-read at the end), index_history (160 / 1600 sequences of lookups; the array of the previous "
+        "step re-used after arr.coords[dim] = ..., arr[dim] = ..., assign_coords, coordinate.copy(data=...), isel; "
+        "coordinates, data and attributes of the array snapshot around every call), set_session (sessions of 3-5 writes "
+        "into one live array along the construction paths, coordinates re-assigned between calls, earlier queries "
+        "repeated, rejected calls in between; each step judged on the content read right before it); non-trivial = "
+        "the implementation returned a value; distinct = distinct (operation, input)")
 TRUSTED = ["numpy arange / pandas get_slice_bound / xarray indexes and get_axis_num (modelled, validated by correspondence)",
            "the stand-ins of harness/c16_sym.py answer like numpy / xarray where the kernels ask (np.arange raises on a zero "
            "step, Index.min / max are the range of an increasing axis, get_axis_num raises ValueError for an unknown dimension, "
            "indexes / coords list their keys in registration order - not the order of the dimensions -, coordinates carry an "
-           "attrs dict, len() is the size of the first axis / of the index)"]
+           "attrs dict, len() is the size of the first axis / of the index, copy() is the same array as a new object)",
+           "inspect.signature reports the parameters a call is bound to; SE.Axis.bindParams is Python's binding of "
+           "positional-or-keyword parameters"]
 ASSUMPTIONS = ["binary64 arithmetic is exact on the dyadic grids used for range requests",
                "step > 0 and start <= stop for range requests; axes increasing for lookups (the property's quantifier)",
                "the query value of a lookup is a number of the axis' dtype (on a float32 axis pandas casts a binary64 "
                "value to float32 first: known finding C16-2)"]
-NOT_COMPARED = ["error messages (only the error class)", "attributes other than `step`",
+NOT_COMPARED = ["error messages (only the error class)", "attributes other than `step` (also the further attributes a caller "
+                "passes: only that they do not disturb `step`, the name, the dtype and the coordinates)",
                 "range requests with non-representable steps: the result is fixed by C16_count_robust given numpy's arange "
                 "output (exact), plus lattice within tolerance, inside-ness and the step attribute (the rational model cannot "
                 "exhibit arange rounding)",
-                "whether set_value_at_pos returns the very array it was given (only its data, shape and coordinates)",
+                "whether set_value_at_pos returns the very array it was given and whether it writes in place (the docstring "
+                "says so; the property pins the content: the array returned must hold the model's content, the array given "
+                "the same content or bytewise what it held before the call, coordinates / attributes / the value argument "
+                "untouched)",
                 "lookups on an empty axis (the code returns -1, the model ValueError; outside the quantifier)"]
 
 
@@ -102,8 +143,39 @@ def _fits(x, ty):
     return float(np.float32(x)) == float(x)
 
 
-@guarded
-def _impl_range(inp):
+# The documented signatures (order, names and defaults are API; `SE.Axis.rangeSig` … `setSig` in Lean).  These are
+# the harness' own statement of the API - never read from the code under test; stage `signatures` ties the tables
+# of the imported functions to them, `C16_call_forms` proves that every split of a call into a positional prefix
+# and keywords binds alike under such a table.
+RANGE_PARAMS = ("name", "start", "stop", "step", "size", "dtype")
+TIME_PARAMS = ("start_time", "end_time", "step", "samplerate", "name", "dtype")
+FREQ_PARAMS = ("low_freq", "high_freq", "step", "name", "dtype")
+INDEX_PARAMS = ("arr", "dim", "value", "raise_error")
+SET_PARAMS = ("array", "value")
+_OMIT = object()
+
+
+def _call_form(fn, names, given, k, defaults, extra=None):
+    """`fn` called with the arguments `given` (by documented parameter name): the first `k` parameters
+    positionally, in the documented order, the others by keyword.  A parameter that is not given but precedes a
+    positional one is filled with its documented default."""
+    last = max([i for i, n in enumerate(names) if n in given], default=-1)
+    k = max(0, min(int(k), last + 1))
+    pos = [given[n] if n in given else defaults[n] for n in names[:k]]
+    kw = {n: given[n] for n in names[k:] if n in given}
+    kw.update(extra or {})
+    return fn(*pos, **kw)
+
+
+_KIND_DIM = {"range": "x", "time": "time", "frequency": "frequency"}
+_EXTRA_ATTRS = {"units": "furlongs", "note": "n", "offset": -99.0}     # never `step`
+
+
+def _range_call(inp):
+    """the range constructor of a `range_dim` case on the real code -> the Variable it returns.  Harness-only keys
+    (the model does not see them, none of them changes what is asked for): `argty` (number types), `dtype`,
+    `name` (another name for the dimension), `attrs` (further attributes), `call` (call form: number of positional
+    arguments, see `_call_form`; absent = the mixed form the check always used)"""
     import numpy as np
     from soundevent import arrays
     kind = inp["kind"]
@@ -114,22 +186,68 @@ def _impl_range(inp):
         return aty.get(field) if isinstance(aty, dict) else aty
     start, stop = _typed(f(inp["start"]), tyof("start")), _typed(f(inp["stop"]), tyof("stop"))
     step = _typed(f(inp.get("step")), tyof("step"))
-    kw = {"dtype": np.float32} if inp.get("dtype") == "float32" else {}
+    kw = {}
+    if inp.get("dtype") == "float32":       # `dtyform`: the same dtype written another way
+        kw = {"dtype": {"str": "float32", "npdtype": np.dtype("float32"), "code": "f4"}.get(inp.get("dtyform"), np.float32)}
+    elif inp.get("dtyform"):                 # the default dtype given explicitly
+        kw = {"dtype": {"str": "float64", "npdtype": np.dtype("float64"), "code": "f8"}.get(inp["dtyform"], float)}
+    extra = dict(_EXTRA_ATTRS) if inp.get("attrs") else {}
+    name = inp.get("name")
+    form = inp.get("call")
+    size = inp.get("size")
+    if size is not None and ty == "npint":
+        size = np.int64(size)
+    if size is not None and inp.get("sizety"):      # the same whole number as another type
+        size = {"npint": np.int64, "np32int": np.int32, "float": float, "np64": np.float64}[inp["sizety"]](size)
+    sr = _typed(f(inp.get("samplerate")), tyof("samplerate"))
+    if form is None and name is None:
+        if kind == "range":
+            return arrays.create_range_dim("x", start, stop, step=step, size=size, **kw, **extra)
+        if kind == "time":
+            return arrays.create_time_range(start, stop, step=step, samplerate=sr, **kw, **extra)
+        return arrays.create_frequency_range(start, stop, step, **kw, **extra)
+    form = 3 if form is None else form
+    dflt = {"step": None, "size": None, "samplerate": None, "dtype": np.float64, "name": _KIND_DIM[kind]}
+    given = dict(kw)
     if kind == "range":
-        size = inp.get("size")
-        if size is not None and ty == "npint":
-            size = np.int64(size)
-        v = arrays.create_range_dim("x", start, stop, step=step, size=size, **kw)
-        assert v.dims == ("x",)
-    elif kind == "time":
-        v = arrays.create_time_range(start, stop, step=step, samplerate=_typed(f(inp.get("samplerate")), tyof("samplerate")), **kw)
-        assert v.dims == ("time",)
-    else:
-        v = arrays.create_frequency_range(start, stop, step, **kw)
-        assert v.dims == ("frequency",)
-    if kw and np.asarray(v.data).dtype != np.float32:
+        given.update(name=name or "x", start=start, stop=stop)
+        if step is not None:
+            given["step"] = step
+        if size is not None:
+            given["size"] = size
+        return _call_form(arrays.create_range_dim, RANGE_PARAMS, given, form, dflt, extra)
+    if name is not None:
+        given["name"] = name
+    if kind == "time":
+        given.update(start_time=start, end_time=stop)
+        if step is not None:
+            given["step"] = step
+        if sr is not None:
+            given["samplerate"] = sr
+        return _call_form(arrays.create_time_range, TIME_PARAMS, given, form, dflt, extra)
+    given.update(low_freq=start, high_freq=stop, step=step)
+    return _call_form(arrays.create_frequency_range, FREQ_PARAMS, given, form, dflt, extra)
+
+
+def _range_canon(inp, v):
+    """what C16 pins of a returned range dimension: its one dimension carries the requested name, the coordinates
+    have the requested dtype (float64 unless asked otherwise), the `step` attribute, the coordinates"""
+    import numpy as np
+    want = inp.get("name") or _KIND_DIM[inp["kind"]]
+    if tuple(v.dims) != (want,):
+        return {"raise": "crash:dimension-name-not-honoured"}
+    want_dt = np.float32 if inp.get("dtype") == "float32" else np.float64
+    if np.asarray(v.data).dtype != want_dt:
         return {"raise": "crash:dtype-not-honoured"}
     return _range_out(v)
+
+
+@guarded
+def _impl_range(inp):
+    return _range_canon(inp, _range_call(inp))
+
+
+_RANGE_HARNESS_KEYS = ("argty", "dtype", "call", "name", "attrs", "sizety", "dtyform")
 
 
 def _holds_range(ctx, inp, out):
@@ -181,6 +299,24 @@ def _arange_contract(start, step, delta, thr, n, cs):
     return abs(thr - (start + n * step - step / 2)) <= delta
 
 
+def _dyadic_ints(values):
+    """binary64 numbers as integers over one common power-of-two denominator 2^K: ([ints], K)"""
+    rs = [float(v).as_integer_ratio() for v in values]
+    K = max((d.bit_length() - 1 for _n, d in rs), default=0)
+    return [n << (K - (d.bit_length() - 1)) for n, d in rs], K
+
+
+def _arange_contract_fast(start, step, thr, n, cs):
+    """`_arange_contract` with delta = step / 5 for binary64 arguments, in integer arithmetic (the same exact
+    judgement; the two are compared on every short request)"""
+    (S, Q, T, *C), _K = _dyadic_ints([start, step, thr] + list(cs))
+    if not (Q > 0 and len(C) in (n, n + 1)):
+        return False
+    if any(abs(5 * (c - (S + i * Q))) > Q for i, c in enumerate(C)):
+        return False
+    return abs(10 * (T - (S + n * Q)) + 5 * Q) <= 2 * Q
+
+
 def _holds_range_free(ctx, inp, out):
     if is_err(out):
         return "range request raised: %s" % out["raise"]
@@ -190,7 +326,7 @@ def _holds_range_free(ctx, inp, out):
     step = r["req_step"]                      # the requested step, or the one derived from size / sample rate
     qs, qd = frac(inp["start"]), Fraction(step)
     # numpy's contract (hypothesis of C16_count_robust), exactly, on what np.arange returned
-    lib = [Fraction(c) for c in r["arange"]]
+    lib = [Fraction(c) for c in r["arange"]] if n <= 48 else None
     delta, thr = qd / 5, Fraction(r["thr"])
     if inp.get("f32"):
         # float32 coordinates (from start 0, where numpy fills with i * float32(step)): the count, the step
@@ -203,14 +339,16 @@ def _holds_range_free(ctx, inp, out):
             if not (start <= c < r["stop"]) or abs(Fraction(c) - (qs + i * qd)) > (Fraction(abs(c)) + 1) / 2 ** 20:
                 return f"float32 coordinate {i} = {c!r} outside [start, stop) or off the lattice"
         return None
-    ok = _arange_contract(qs, qd, delta, thr, n, lib)
-    ctx.contract("numpy-arange-within-quarter-step", ok, inp, {"arange_len": len(lib), "n": n},
+    ok = _arange_contract_fast(start, step, r["thr"], n, r["arange"])
+    if n <= 48 and ok != _arange_contract(qs, qd, delta, thr, n, lib):
+        return "harness: the two evaluations of the arange contract disagree"
+    ctx.contract("numpy-arange-within-quarter-step", ok, inp, {"arange_len": len(r["arange"]), "n": n},
                  "np.arange returned neither n nor n+1 points, or a point / the threshold a quarter step off")
     if ok:
         # … under which the theorem fixes the result: the first n points numpy produced
         if cs != r["arange"][:n]:
             return (f"{len(cs)} coordinates; C16_count_robust fixes the result to the first {n} points of np.arange "
-                    f"(which returned {len(lib)})")
+                    f"(which returned {len(r['arange'])})")
         if n <= 48:   # the same judgement through the Lean definitions (small cases: JSON size)
             m = ctx.model("range_robust", {"start": inp["start"], "step": rat(qd), "delta": rat(delta),
                                            "thr": rat(thr), "n": n, "cs": rats(lib)})
@@ -220,41 +358,62 @@ def _holds_range_free(ctx, inp, out):
         return f"{len(cs)} coordinates for (stop - start)/step = {n}"
     if r["step"] != step:
         return "step attribute differs from the requested step"
+    (S, Q), K = _dyadic_ints([start, step])
+    den = 1 << K
     for i, c in enumerate(cs):
         if not (start <= c < r["stop"]):
             return f"coordinate {i} = {c!r} outside [start, stop)"
-        if not tol_eq(qs + i * qd, c):
+        lat = (S + i * Q) / den           # = float(start + i * step), correctly rounded (int / int)
+        if not abs(c - lat) <= 2.0 ** -40 * max(1.0, abs(lat)):
             return f"coordinate {i} = {c!r} off the lattice"
     return None
 
 
-def _mk_1d(coords, dtype=None):
+def _mk_1d(coords, dtype=None, cattrs=None):
     import numpy as np
     import xarray as xr
     c = np.asarray(coords, dtype=dtype) if dtype else np.asarray(coords, dtype=float)
+    if cattrs and len(coords):        # the coordinate carries `start` / `stop` / `step` attributes (`_range_attrs`)
+        c = xr.Variable("x", c, attrs=_range_attrs([float(v) for v in coords], cattrs))
     return xr.DataArray(np.zeros(len(coords)), dims=["x"], coords={"x": c})
+
+
+def _raise_flag(inp):
+    """the `raise_error` flag as the case asks for it: a bool, or (`rty`) the same truth value as an int / numpy bool"""
+    import numpy as np
+    r = inp["raise"]
+    return {"int": int(r), "npbool": np.bool_(r)}.get(inp.get("rty"), r)
+
+
+def _lookup_call(arr, dim, v, inp):
+    """get_coord_index in the call form of the case (`call` = number of positional arguments; absent: the array,
+    the dimension and the value positionally, the flag by keyword; `omit_raise`: the flag left to its default)"""
+    from soundevent import arrays
+    given = {"arr": arr, "dim": dim, "value": v}
+    if not inp.get("omit_raise"):
+        given["raise_error"] = _raise_flag(inp)
+    return _call_form(arrays.get_coord_index, INDEX_PARAMS, given, inp.get("call", 3), {"raise_error": True})
 
 
 @guarded
 def _impl_index(inp):
-    from soundevent import arrays
     coords = fl(inp["coords"])
     if inp.get("int_axis"):
-        arr = _mk_1d([int(c) for c in coords], dtype="int64")
+        arr = _mk_1d([int(c) for c in coords], dtype="int64", cattrs=inp.get("cattrs"))
     elif inp.get("axis32"):
-        arr = _mk_1d(coords, dtype="float32")
+        arr = _mk_1d(coords, dtype="float32", cattrs=inp.get("cattrs"))
     else:
-        arr = _mk_1d(coords)
+        arr = _mk_1d(coords, cattrs=inp.get("cattrs"))
     before = arr["x"].values.copy()
+    attrs_before = _attrs_of(arr)
     v = f(inp["v"])
     if inp.get("int_query"):
         v = int(v)
     v = _typed(v, inp.get("qty"))
-    kw = {} if inp.get("omit_raise") else {"raise_error": inp["raise"]}
-    r = arrays.get_coord_index(arr, "x", v, **kw)
+    r = _lookup_call(arr, "x", v, inp)
     if isinstance(r, bool) or int(r) != r:
         return {"raise": "crash:not-an-int"}
-    if arr["x"].values.tobytes() != before.tobytes():
+    if arr["x"].values.tobytes() != before.tobytes() or _attrs_of(arr) != attrs_before:
         return {"raise": "crash:coordinates-changed"}
     return {"val": int(r)}
 
@@ -286,13 +445,19 @@ def _impl_index_dim(inp):
     n = len(coords)
     out = []
 
+    # the name of the dimension as a plain string and (every second lookup) as the library's own `Dimensions` member,
+    # a str subclass
+    names = [dim]
+    member = getattr(getattr(arrays, "Dimensions", None), dim, None)
+    if isinstance(member, str) and member == dim:
+        names.append(member)
+
     def look(q, raise_):
         try:
-            res = arrays.get_coord_index(arr, dim, q, raise_error=raise_)
+            res = arrays.get_coord_index(arr, names[len(out) % len(names)], q, raise_error=raise_)
             o = {"val": int(res)} if int(res) == res else {"raise": "crash:not-an-int"}
         except Exception as e:  # noqa: BLE001
-            from ..core import canon_exc
-            o = canon_exc(e)
+            o = _axis_exc(e)
         out.append([rat(q), o, raise_])
 
     for i in range(n):
@@ -315,27 +480,104 @@ def _impl_index_dim(inp):
 
 
 def _holds_index_dim(ctx, inp, out):
+    """every lookup judged by the Lean statement `indexSpec` on the coordinates of the axis (one request per axis)"""
     if is_err(out):
         return "building the axis or the array failed: %r" % (out,)
     coords = out["val"]["coords"]
-    reqs = []
+    ls = []
     for q, o, raise_ in out["val"]["lookups"]:
         if not is_err(o) and o["val"] < 0:
             return f"lookup of {q} returned a negative index"
         if is_err(o) and o["raise"].startswith("crash"):
             o = {"raise": "index"}
-        reqs.append({"coords": coords, "v": q, "raise": raise_, "out": o})
-    oks = ctx.model_many("holds_index", reqs)
-    for r, ok in zip(reqs, oks):
+        ls.append([q, raise_, {k: v for k, v in o.items() if k != "trace"}])
+    oks = ctx.model("holds_index_many", {"coords": coords, "lookups": ls}) if ls else []
+    for (q, raise_, o), ok in zip(ls, oks):
         if not ok:
-            fr = frac(r["v"])
-            return (f"lookup statement of C16 fails on an axis built by the range constructor: query {float(fr)!r} "
-                    f"(raise_error={r['raise']}) -> {r['out']}")
+            return (f"lookup statement of C16 fails on an axis of {len(coords)} points: query {float(frac(q))!r} "
+                    f"(raise_error={raise_}) -> {o}")
     return None
+
+
+@guarded
+def _impl_index_long(inp):
+    """lookups along a whole axis: `make` = "lib" (built by create_range_dim, carries the step attribute) or "np"
+    (hand-made start + i * step, no attribute); `sweep` = "full" (every coordinate, its two float neighbours, every
+    midpoint, tolerance-sized offsets around a sample) or "coords" (every coordinate, and the full treatment of a
+    sample and of both ends)"""
+    import numpy as np
+    import xarray as xr
+    from soundevent import arrays
+    if "coords" in inp:                 # a hand-made axis given point by point
+        given = np.asarray(fl(inp["coords"]), dtype=float)
+        var, n = ("x", given), len(given)
+        step = float(given[1] - given[0]) if n > 1 and given[1] > given[0] else max(abs(float(given[0])), 1.0)
+    else:
+        start, step, n = f(inp["start"]), f(inp["step"]), inp["n"]
+        if inp.get("make") == "lib":
+            var = arrays.create_range_dim("x", start, start + n * step, step=step)
+        else:
+            var = ("x", start + step * np.arange(n, dtype=float))
+    arr = xr.DataArray(np.zeros(n if not hasattr(var, "shape") else var.shape[0]), dims=["x"], coords={"x": var})
+    coords = [float(c) for c in np.asarray(arr["x"].values)]
+    n = len(coords)
+    if n == 0 or any(b < a for a, b in zip(coords, coords[1:])):
+        return {"raise": "crash:axis-not-increasing"}
+    out = []
+
+    def look(q, raise_=True):
+        try:
+            res = arrays.get_coord_index(arr, "x", q, raise_error=raise_)
+            o = {"val": int(res)} if int(res) == res else {"raise": "crash:not-an-int"}
+        except Exception as e:  # noqa: BLE001
+            o = _axis_exc(e)
+        out.append([rat(q), o, raise_])
+
+    sample = set(inp.get("sample", ())) | {0, 1, n - 2, n - 1}
+    full = inp.get("sweep", "full") == "full"
+    for i, c in enumerate(coords):
+        look(c)
+        if full or i in sample:
+            qs = [ulp_up(c), ulp_down(c)]
+            if i + 1 < n:
+                qs.append(c + (coords[i + 1] - c) / 2)
+            if i in sample:       # tolerance-sized offsets on both sides of the coordinate
+                for e in (1e-6, 1e-9, 1e-12):
+                    qs += [c + step * e, c - step * e, c * (1 + e), c * (1 - e)]
+            for q in qs:
+                if coords[0] <= q <= coords[-1]:
+                    look(q)
+    first, last = coords[0], coords[-1]
+    beyond = [ulp_up(last), last + step / 2, last + step, ulp_down(first), first - step]
+    for e in (1e-6, 1e-9, 1e-12):
+        beyond += [last + step * e, last + abs(last) * e, first - step * e, first - abs(first) * e]
+    for q in dict.fromkeys(beyond):
+        if math.isfinite(q) and not (first <= q <= last):
+            look(q, True)
+            look(q, False)
+    if arr["x"].values.tobytes() != np.asarray(coords).tobytes():
+        return {"raise": "crash:coordinates-changed"}
+    return {"val": {"coords": rats(coords), "lookups": out}}
 
 
 def _axis_step(ax):
     return float(ax[1] - ax[0]) if len(ax) > 1 else 1.0
+
+
+RANGE_ATTRS = ("consistent", "end", "wide", "narrow", "shifted", "eps")
+
+
+def _range_attrs(ax, kind):
+    """`start` / `stop` / `step` attributes on a coordinate, as the library's own extend_dim / set_dim_attrs leave
+    them: describing the coordinates ("consistent": first / last; "end": first / last + step, the exclusive end;
+    "eps": first + 1e-5 / last + step - 1e-5, what extend_dim writes) or stale ("wide", "narrow", "shifted": the
+    array was cropped, extended or re-labelled afterwards).  The answer of a lookup is pinned by the coordinates alone."""
+    step = _axis_step(ax)
+    first, last = float(ax[0]), float(ax[-1])
+    lo, hi = {"consistent": (first, last), "end": (first, last + step), "eps": (first + 1e-5, last + step - 1e-5),
+              "wide": (first - 2 * step, last + 2 * step), "narrow": (first + step / 2, last - step / 2),
+              "shifted": (first + 10 * step, last + 10 * step)}[kind]
+    return {"step": step, "start": lo, "stop": hi, "units": "s"}
 
 
 def _build_array(shape, data, axes, b):
@@ -350,13 +592,16 @@ def _build_array(shape, data, axes, b):
       form       "dict" (coords=…), "assign" (assign_coords afterwards, one by one), "dataset" (taken out of a
                  Dataset), "tuples" (coords=[(name, values), …], which also fixes dims)
       step_attr  coordinates handed over as xr.Variable with a `step` attribute (as the range constructors do)
+      range_attrs  … with `start` / `stop` / `step` attributes, consistent or stale (see `_range_attrs`)
       axis_dtype {axis: "float32" | "int64"}
-      layout     "F": Fortran-ordered data"""
+      layout     "F": Fortran-ordered data
+      names      the names of the dimensions, axis by axis (a permutation of d0, d1, …: the same name sits on another
+                 axis than in the arrays handled before)"""
     import numpy as np
     import xarray as xr
     b = b or {}
     nd = len(shape)
-    dims = [f"d{k}" for k in range(nd)]
+    dims = list(b.get("names") or [f"d{k}" for k in range(nd)])
     nocoord = set(b.get("nocoord", ()))
     adt = b.get("axis_dtype") or {}
     cvals = {}
@@ -369,6 +614,8 @@ def _build_array(shape, data, axes, b):
         cvals[k] = a
 
     def coord(k):
+        if b.get("range_attrs"):
+            return xr.Variable(dims[k], cvals[k], attrs=_range_attrs(axes[k], b["range_attrs"]))
         if b.get("step_attr"):
             return xr.Variable(dims[k], cvals[k], attrs={"step": _axis_step(axes[k]), "units": "s"})
         return (dims[k], cvals[k])
@@ -417,14 +664,27 @@ def _build_array(shape, data, axes, b):
     if tuple(arr.dims) != tuple(dims) or tuple(arr.shape) != tuple(shape):
         raise RuntimeError("harness: the construction path did not yield the requested array")
     snap = {n: np.array(c.values, copy=True) for n, c in arr.coords.items()}
+    snap[_ATTRS] = _attrs_of(arr)
     return arr, dims, snap
 
 
+_ATTRS = "\0attrs"
+
+
+def _attrs_of(arr):
+    """the attributes of an array and of its coordinates (a call must not leave anything there)"""
+    return repr((sorted((str(k), repr(v)) for k, v in arr.attrs.items()),
+                 sorted((str(n), sorted((str(k), repr(v)) for k, v in c.attrs.items())) for n, c in arr.coords.items())))
+
+
 def _coords_unchanged(out, snap):
+    """coordinates (names, values bytewise) and attributes (of the array and of every coordinate) as at construction"""
     import numpy as np
-    if set(out.coords) != set(snap):
+    if set(out.coords) != set(snap) - {_ATTRS}:
         return False
-    return all(np.asarray(out.coords[n].values).tobytes() == v.tobytes() for n, v in snap.items())
+    if _ATTRS in snap and _attrs_of(out) != snap[_ATTRS]:
+        return False
+    return all(np.asarray(out.coords[n].values).tobytes() == v.tobytes() for n, v in snap.items() if n != _ATTRS)
 
 
 @guarded
@@ -435,7 +695,7 @@ def _impl_set(inp):
     shape = inp["shape"]
     dt = "int64" if inp.get("int_data") else ("float32" if inp.get("f32_data") else float)
     data = np.array(fl(inp["data"]), dtype=dt).reshape(shape)
-    arr, dims, snap = _build_array(shape, data, [fl(ax) for ax in inp["axes"]], inp.get("build"))
+    arr, dims, snap = _build_array(shape, data.copy(), [fl(ax) for ax in inp["axes"]], inp.get("build"))
     val = inp["value"]
     if "scalar" in val:
         value = _typed(f(val["scalar"]), inp.get("vty"))
@@ -447,22 +707,39 @@ def _impl_set(inp):
         elif how == "tuple":
             value = tuple(value.tolist()) if value.ndim else value.tolist()
     given = copy.deepcopy(value)
-    query = {f"d{k}": _typed(f(q), inp.get("qty") if _fits(f(q), inp.get("qty")) else None) for k, q in inp["query"]}
+    query = {_dim_name(dims, k): _typed(f(q), inp.get("qty") if _fits(f(q), inp.get("qty")) else None) for k, q in inp["query"]}
     try:
-        out = ops.set_value_at_pos(arr, value, **query)
+        out = _call_form(ops.set_value_at_pos, SET_PARAMS, {"array": arr, "value": value}, inp.get("call", 2), {}, query)
     except Exception:
         if np.asarray(arr.values).tobytes() != data.tobytes() or not _coords_unchanged(arr, snap):
             return {"raise": "crash:array-changed-by-a-rejected-call"}
         raise
+    return _set_canon(out, arr, dims, shape, snap, data, given, value)
+
+
+def _dim_name(dims, k):
+    return dims[k] if k < len(dims) else f"d{k}"
+
+
+def _set_canon(out, arr, dims, shape, snap, before, given, value):
+    """what C16 pins after a successful write: the array returned has the dimensions, shape and coordinates of the
+    one given and (the return value of `_set_canon`) the content the model fixes; the value argument is untouched;
+    the array *given* holds afterwards either that same content (the write was made in place, as the docstring
+    says) or bytewise what it held before (the write was made on a copy) - never anything else"""
+    import numpy as np
     if tuple(out.dims) != tuple(dims):
         return {"raise": "crash:dimensions-changed"}
     res = np.asarray(out.data)
     if res.shape != tuple(shape):
         return {"raise": "crash:shape-changed"}
-    if not _coords_unchanged(out, snap):
+    if not _coords_unchanged(out, snap) or not _coords_unchanged(arr, snap):
         return {"raise": "crash:coordinates-changed"}
     if not np.array_equal(np.asarray(given, dtype=float), np.asarray(value, dtype=float)):
         return {"raise": "crash:value-argument-mutated"}
+    now = np.asarray(arr.values)
+    if now.shape != tuple(shape) or (now.tobytes() != np.ascontiguousarray(res).tobytes()
+                                     and now.tobytes() != np.ascontiguousarray(before).tobytes()):
+        return {"raise": "crash:given-array-neither-written-nor-left-alone"}
     # the whole array after the call (row-major, in the order of the dimensions): the model fixes every element
     return {"val": [rat(float(x)) for x in res.reshape(-1)]}
 
@@ -485,8 +762,7 @@ def _impl_index_nd(inp):
         _ND_CACHE.update(key=key, built=(arr, dims, snap, np.array(arr.values, copy=True)))
     arr, dims, snap, before = _ND_CACHE["built"]
     v = _typed(f(inp["v"]), inp.get("qty") if _fits(f(inp["v"]), inp.get("qty")) else None)
-    kw = {} if inp.get("omit_raise") else {"raise_error": inp["raise"]}
-    r = arrays.get_coord_index(arr, dims[inp["axis"]], v, **kw)
+    r = _lookup_call(arr, dims[inp["axis"]], v, inp)
     if isinstance(r, bool) or int(r) != r:
         return {"raise": "crash:not-an-int"}
     if not _coords_unchanged(arr, snap) or np.asarray(arr.values).tobytes() != before.tobytes():
@@ -499,7 +775,7 @@ def _index_nd_to_model(inp):
     return {"coords": inp["axes"][inp["axis"]], "v": inp["v"], "raise": inp["raise"]}
 
 
-_SET_HARNESS_KEYS = ("int_data", "f32_data", "vty", "qty", "container", "build")
+_SET_HARNESS_KEYS = ("int_data", "f32_data", "vty", "qty", "container", "build", "call")
 
 
 def _set_to_model(inp):
@@ -524,9 +800,409 @@ def _match_float32_axis(failure, m):
 FINDING_MATCHERS = {"float32_axis_value_rounds_onto_coordinate": _match_float32_axis}
 
 
+
+
+# ------------------------------------------------------------------ arrays out of the library's own helpers
+def _derive(arrays, arr, dim, chain):
+    """an ordinary way of obtaining an array: the library's own range-adjusting helpers applied to a fresh one
+    (they are object constructors here: whatever array comes out is read back with numpy and the lookups / writes on
+    it are judged by its coordinates alone).  extend_dim leaves eps-shifted `start` / `stop` attributes on the
+    coordinate, crop_dim / sel / isel carry them along unchanged, set_dim_attrs writes what it is told."""
+    for op, a in chain:
+        fn = getattr(arrays, op, None)
+        if op == "sel":
+            arr = arr.sel({dim: slice(a[0], a[1])})
+        elif op == "isel":
+            arr = arr.isel({dim: slice(a[0], a[1])})
+        elif op == "shift":       # re-labelled: the same attributes on other coordinates
+            arr = arr.assign_coords({dim: arr[dim].copy(data=arr[dim].values + a[0])})
+        elif fn is None:
+            return None
+        elif op == "set_dim_attrs":
+            arr = fn(arr, dim, start=a[0], stop=a[1])
+        elif op in ("extend_dim", "crop_dim", "adjust_dim_range"):
+            arr = fn(arr, dim, **{k: v for k, v in zip(("start", "stop"), a) if v is not None})
+        else:
+            return None
+    return arr
+
+
+@guarded
+def _impl_index_derived(inp):
+    import copy
+    import numpy as np
+    import xarray as xr
+    from soundevent import arrays
+    from soundevent.arrays import operations as ops
+    r = inp["range"]
+    start, stop, step = f(r["start"]), f(r["stop"]), f(r["step"])
+    make = {"time": lambda: (arrays.create_time_range(start, stop, step=step), "time"),
+            "frequency": lambda: (arrays.create_frequency_range(start, stop, step), "frequency"),
+            "range": lambda: (arrays.create_range_dim("x", start, stop, step=step), "x")}[r["kind"]]
+    var, dim = make()
+    n0 = var.shape[0]
+    arr = xr.DataArray(np.arange(1.0, 1.0 + n0), dims=[dim], coords={dim: var})
+    try:
+        arr = _derive(arrays, arr, dim, [(op, list(a) if op == "isel" else [None if x is None else f(x) for x in a])
+                                         for op, a in inp["chain"]])
+    except Exception:  # noqa: BLE001 - the helpers are not C16's business: no array, nothing to look up
+        arr = None
+    if arr is None or arr.sizes.get(dim, 0) == 0:
+        return {"val": {"coords": [], "lookups": [], "writes": [], "built": False}}
+    coords = [float(c) for c in np.asarray(arr[dim].values, dtype=float)]
+    n = len(coords)
+    if any(b <= a for a, b in zip(coords, coords[1:])):
+        return {"val": {"coords": [], "lookups": [], "writes": [], "built": False}}
+    attrs = dict(arr[dim].attrs)
+    snap_attrs = _attrs_of(arr)
+    first, last = coords[0], coords[-1]
+    # query values: every coordinate, float neighbours, midpoints; beyond both ends up to two steps; and whatever
+    # numbers the attributes of the coordinate mention (`start`, `stop`, and half-way between them and the real ends)
+    qs = []
+    for i, c in enumerate(coords):
+        qs += [c, ulp_up(c), ulp_down(c)]
+        if i + 1 < n:
+            qs.append(c + (coords[i + 1] - c) / 2)
+    for e in (first, last):
+        for d in (step * 1e-9, step / 4, step / 2, step, 2 * step):
+            qs += [e + d, e - d]
+    for key, edge in (("start", first), ("stop", last)):
+        a = attrs.get(key)
+        if isinstance(a, (int, float, np.floating, np.integer)) and math.isfinite(float(a)):
+            a = float(a)
+            qs += [a, ulp_up(a), ulp_down(a), (a + edge) / 2]
+    out = []
+    for q in dict.fromkeys(x for x in qs if math.isfinite(x)):
+        for raise_ in ((True, False) if not (first <= q <= last) else (True,)):
+            try:
+                res = arrays.get_coord_index(arr, dim, q, raise_error=raise_)
+                o = {"val": int(res)} if int(res) == res else {"raise": "crash:not-an-int"}
+            except Exception as e:  # noqa: BLE001
+                o = _axis_exc(e)
+            out.append([rat(q), o, raise_])
+    if arr[dim].values.astype(float).tobytes() != np.asarray(coords).tobytes() or _attrs_of(arr) != snap_attrs:
+        return {"raise": "crash:array-changed"}
+    # writes at a few of these positions (each into a deep copy)
+    writes = []
+    data0 = np.asarray(arr.values, dtype=float)
+    if data0.ndim == 1:
+        cand = [coords[n // 2], last, first + (coords[1] - first) / 2 if n > 1 else first, last + step / 2, last + step,
+                first - step / 4, first - step] + [float(attrs[k]) for k in ("start", "stop")
+                                                   if isinstance(attrs.get(k), (int, float, np.floating))]
+        for q in dict.fromkeys(x for x in cand if math.isfinite(x)):
+            target = arr.copy(deep=True)
+            rec = {"before": rats(float(x) for x in data0), "query": [[0, rat(q)]], "value": {"scalar": "-7"}}
+            try:
+                res = ops.set_value_at_pos(target, -7.0, **{dim: q})
+                rec["out"] = {"val": rats(float(x) for x in np.asarray(res.values, dtype=float).reshape(-1))}
+            except Exception as e:  # noqa: BLE001
+                rec["out"] = _axis_exc(e)
+            writes.append(rec)
+    return {"val": {"coords": rats(coords), "lookups": out, "writes": writes, "built": True}}
+
+
+def _holds_index_derived(ctx, inp, out):
+    msg = _holds_index_dim(ctx, inp, out)
+    if msg:
+        return msg + " (array out of " + " -> ".join(op for op, _ in inp["chain"]) + ")"
+    v = out["val"]
+    for w in v["writes"]:
+        mo = ctx.model("set_value", {"shape": [len(v["coords"])], "data": w["before"], "axes": [v["coords"]],
+                                     "query": w["query"], "value": w["value"]})
+        o = {k: x for k, x in w["out"].items() if k != "trace"}
+        if o != mo:
+            return (f"set_value_at_pos at {float(frac(w['query'][0][1]))!r} on an array out of "
+                    f"{' -> '.join(op for op, _ in inp['chain'])} answers {jkey_short(o)}, the model {jkey_short(mo)}")
+    return None
+
+
+# ------------------------------------------------------------------ histories (harness/history.py, HISTORIES.md)
+class _Raised:
+    """the call of a history step raised: its canonical error (in the error classes of the axis model)"""
+    def __init__(self, out):
+        self.out = out
+
+
+def _try(fn, *a):
+    try:
+        return fn(*a)
+    except Exception as e:  # noqa: BLE001 - an exception of the real code is an observation of that step
+        return _Raised(_axis_exc(e))
+
+
+def _rh_canon(inp, args, res):
+    return res.out if isinstance(res, _Raised) else _range_canon(inp, res)
+
+
+def _rh_poison(res):
+    """the caller edits the Variable it got back (its data in place, its attributes): a later request must not see it"""
+    if isinstance(res, _Raised):
+        return False
+    try:
+        data = res.values
+        if data.size:
+            data[...] = data + 1000.5
+    except Exception:  # noqa: BLE001 - a read-only buffer cannot be poisoned that way
+        pass
+    res.attrs["step"] = -123.0
+    res.attrs["poisoned"] = True
+    return True
+
+
+def _rh_variants(x, rng):
+    """neighbours of a range request: the same numbers with another dtype / name / kind / call form / number type /
+    attributes, the step given through `size`, and requests that differ in one number only"""
+    out = []
+    nums = [f(x.get(k)) for k in ("start", "stop", "step", "samplerate")]
+    if all(_fits(v, "np32") for v in nums):
+        out.append({**x, "dtype": None if x.get("dtype") else "float32"})
+    out.append({**x, "name": rng.choice(["t2", "frequency", "time", "x"])})
+    out.append({**x, "attrs": not x.get("attrs")})
+    out.append({**x, "call": rng.randint(0, 6)})
+    plain = x.get("step") is not None and x.get("size") is None and x.get("samplerate") is None
+    if plain:
+        for kind in ("range", "time", "frequency"):
+            if kind != x["kind"]:
+                out.append({**{k: v for k, v in x.items() if k != "name"}, "kind": kind})
+        st, a, b = frac(x["step"]), frac(x["start"]), frac(x["stop"])
+        out.append({**x, "step": rat(st * 2)})
+        out.append({**x, "step": rat(st / 2)})
+        out.append({**x, "stop": rat(b + st)})
+        out.append({**x, "start": rat(a - st), "stop": rat(b - st)})
+        if st > 0 and b > a and ((b - a) / st).denominator == 1 and x["kind"] == "range":
+            out.append({k: v for k, v in {**x, "size": int((b - a) / st), "step": None}.items() if v is not None})
+    for ty in ("int", "np64", "npint"):
+        if all(_fits(v, ty) for v in nums) and not isinstance(x.get("argty"), dict):
+            out.append({**x, "argty": ty})
+    return [_sane_range_case({k: v for k, v in c.items() if v is not None}) for c in out]
+
+
+def _sane_range_case(c):
+    """number types only where they denote the same number, and Python numbers for a zero step / size / sample rate
+    (numpy scalars divide by zero without raising: outside what the malformed requests are about)"""
+    nums = {k: f(c.get(k)) for k in ("start", "stop", "step", "samplerate") if c.get(k) is not None}
+    zero = any(nums.get(k) == 0 for k in ("step", "samplerate")) or c.get("size") == 0
+    aty = c.get("argty")
+    if isinstance(aty, dict):
+        aty = {k: t for k, t in aty.items() if k in nums and _fits(nums[k], t)}
+        c = {**c, "argty": aty}
+    if aty is not None and (zero or not aty or (isinstance(aty, str) and not all(_fits(v, aty) for v in nums.values()))):
+        c = {k: v for k, v in c.items() if k != "argty"}
+    if c.get("dtype") == "float32" and not all(_fits(v, "np32") for v in nums.values()):
+        c = {k: v for k, v in c.items() if k != "dtype"}
+    return c
+
+
+def _ih_build(inp):
+    import numpy as np
+    import xarray as xr
+    coords = np.asarray(fl(inp["coords"]), dtype=float)
+    cvar = coords
+    if inp.get("cattrs") and len(coords):
+        cvar = xr.Variable("x", coords, attrs=_range_attrs([float(c) for c in coords], inp["cattrs"]))
+    arr = xr.DataArray(np.arange(1.0, 1.0 + len(coords)), dims=["x"], coords={"x": cvar}, attrs={"made": "by-harness"})
+    return {"arr": arr, "inp": inp}
+
+
+def _ih_call(args):
+    inp = args["inp"]
+    v = f(inp["v"])
+    v = _typed(v, inp.get("qty") if _fits(v, inp.get("qty")) else None)
+    return _try(_lookup_call, args["arr"], "x", v, inp)
+
+
+def _ih_canon(inp, args, res):
+    if isinstance(res, _Raised):
+        return res.out
+    if isinstance(res, bool) or int(res) != res:
+        return {"raise": "crash:not-an-int"}
+    return {"val": int(res)}
+
+
+def _ih_snapshot(args):
+    import numpy as np
+    a = args["arr"]
+    return [np.asarray(a["x"].values).tobytes().hex(), np.asarray(a.values).tobytes().hex(), _attrs_of(a)]
+
+
+IH_REUSE = ("same", "setitem", "setitem_name", "assign", "copy_data", "isel")
+
+
+def _ih_modify(args, inp, how):
+    """the array of the previous step, now carrying the coordinates of this step: the very same object (coordinates
+    re-assigned in place through `arr.coords[dim] = …` / `arr[dim] = …`), or an object derived from it that keeps
+    its attributes and shares its data (`assign_coords`, `isel`); whatever a lookup remembered must not survive"""
+    import numpy as np
+    arr = args["arr"]
+    new = np.asarray(fl(inp["coords"]), dtype=float)
+    old = np.asarray(arr["x"].values, dtype=float)
+    same = len(new) == len(old) and new.tobytes() == old.tobytes()
+    hit = [a for a in range(0, len(old) - len(new) + 1) if old[a:a + len(new)].tobytes() == new.tobytes()]
+    if len(new) != len(old):            # a shorter axis: only as a slice of the old one
+        how = "isel" if hit and len(new) else None
+    elif how == "same" and not same:
+        how = "setitem"
+    elif how == "isel" and not same:
+        how = "assign"
+    if how is None:
+        return None
+    if how == "same":
+        pass
+    elif how == "isel":
+        arr = arr.isel(x=slice(hit[0], hit[0] + len(new)))
+    elif how == "setitem":
+        arr.coords["x"] = new
+    elif how == "setitem_name":
+        arr["x"] = new
+    elif how == "assign":
+        arr = arr.assign_coords(x=new)
+    elif how == "copy_data":
+        arr = arr.assign_coords(x=arr["x"].copy(data=new))
+    else:
+        return None
+    if np.asarray(arr["x"].values, dtype=float).tobytes() != new.tobytes():
+        raise RuntimeError("harness: the coordinates were not re-assigned")
+    return {"arr": arr, "inp": inp}
+
+
+def _ih_variants(x, rng):
+    """neighbours of a lookup: the same axis with another value / flag, the axis shifted or scaled (same length,
+    the old value now somewhere else or outside), the axis without its first / last point, a longer axis"""
+    cs = [frac(c) for c in x["coords"]]
+    v = frac(x["v"])
+    gap = (cs[1] - cs[0]) if len(cs) > 1 else Fraction(1)
+    span = cs[-1] - cs[0] + gap
+
+    def b64(q):          # every number of a case is a binary64 number (the model reads it exactly)
+        return rat(float(q))
+
+    def axis(qs):
+        return [b64(q) for q in qs]
+    out = [{**{k: w for k, w in x.items() if k != "omit_raise"}, "raise": not x["raise"]}]
+    for w in (cs[0], cs[-1], cs[0] - gap / 2, cs[-1] + gap / 2, rng.choice(cs) + gap / 4):
+        out.append({**x, "v": b64(w)})
+    for d in (gap / 2, span, -span, 3 * span):
+        sh = [c + d for c in cs]
+        out.append({**x, "coords": axis(sh)})
+        out.append({**x, "coords": axis(sh), "v": b64(v + d)})
+    out.append({**x, "coords": axis([2 * c for c in cs])})
+    if len(cs) > 1:
+        out.append({**x, "coords": rats(cs[1:]), "v": rat(cs[0])})
+        out.append({**x, "coords": rats(cs[:-1]), "v": rat(cs[-1])})
+        out.append({**x, "coords": rats(cs[1:])})
+    out.append({**x, "coords": rats(cs) + [b64(cs[-1] + gap)], "v": b64(cs[-1] + gap)})
+    return [c for c in out if all(math.isfinite(float(frac(q))) for q in c["coords"] + [c["v"]])]
+
+
+def _rand_write(rng, shape, axes, qable, outside=0.0):
+    """a write request on the axes as they are now: a subset of the queryable axes, positions on / between the
+    coordinates (with probability `outside`: one position just outside its axis), a value of one of the kinds"""
+    nd = len(shape)
+    ks = sorted(rng.sample(qable, rng.randint(0 if rng.random() < 0.15 else 1, len(qable)))) if qable else []
+    query = []
+    for k in ks:
+        ax = axes[k]
+        i = rng.randrange(len(ax))
+        c = ax[i]
+        if i + 1 < len(ax) and rng.random() < 0.4:
+            c = c + (ax[i + 1] - c) * Fraction(rng.choice([1, 2, 3]), 4)
+        query.append([k, rat(c)])
+    if query and rng.random() < outside:
+        j = rng.randrange(len(query))
+        ax = axes[query[j][0]]
+        stp = ax[1] - ax[0] if len(ax) > 1 else Fraction(1, 2)
+        query[j][1] = rat(rng.choice([ax[-1] + stp / 2, ax[-1] + stp, ax[0] - stp / 4]))
+    rng.shuffle(query)
+    free = [shape[k] for k in range(nd) if k not in ks]
+    kind = rng.choice(["scalar", "scalar", "exact", "ones", "bad"] if free else ["scalar", "scalar", "cell_list"])
+    return query, _value(rng, kind, free)
+
+
+def _session_value(val, container):
+    import numpy as np
+    if "scalar" in val:
+        return f(val["scalar"])
+    value = np.array(fl(val["data"]), dtype=float).reshape(val["shape"])
+    if container == "list":
+        return value.tolist()
+    if container == "tuple":
+        return tuple(value.tolist()) if value.ndim else value.tolist()
+    return value
+
+
+@guarded
+def _impl_set_session(h):
+    """consecutive writes into one live array (the array returned by a call is handed to the next one, as in the
+    docstring's `array = set_value_at_pos(array, …)`, or the array given when `use` says so); between two calls the
+    coordinates of an axis may be re-assigned (`recoord`).  Every step reports the content the array had right
+    before the call (read with numpy) and what the call answered."""
+    import copy
+    import numpy as np
+    from soundevent.arrays import operations as ops
+    shape = h["shape"]
+    data = np.array(fl(h["data"]), dtype=float).reshape(shape)
+    cur, dims, snap = _build_array(shape, data.copy(), [fl(ax) for ax in h["axes"]], h.get("build"))
+    axes_now = [list(ax) for ax in h["axes"]]
+    outs = []
+    for st in h["steps"]:
+        rc = st.get("recoord")
+        if rc:
+            k, new = rc["axis"], np.asarray(fl(rc["coords"]), dtype=float)
+            if rc["how"] == "setitem":
+                cur.coords[dims[k]] = new
+            elif rc["how"] == "assign":
+                cur = cur.assign_coords({dims[k]: new})
+            else:
+                cur = cur.assign_coords({dims[k]: cur[dims[k]].copy(data=new)})
+            if np.asarray(cur[dims[k]].values, dtype=float).tobytes() != new.tobytes() or tuple(cur.dims) != tuple(dims):
+                raise RuntimeError("harness: the coordinates were not re-assigned")
+            axes_now[k] = list(rc["coords"])
+            snap = {n: np.array(c.values, copy=True) for n, c in cur.coords.items()}
+            snap[_ATTRS] = _attrs_of(cur)
+        before = np.array(cur.values, copy=True)
+        value = _session_value(st["value"], st.get("container", "list"))
+        given = copy.deepcopy(value)
+        query = {_dim_name(dims, k): f(q) for k, q in st["query"]}
+        rec = {"before": rats(float(x) for x in before.reshape(-1)), "axes": [list(a) for a in axes_now]}
+        try:
+            out = _call_form(ops.set_value_at_pos, SET_PARAMS, {"array": cur, "value": value}, st.get("call", 2), {}, query)
+        except Exception as e:  # noqa: BLE001
+            if np.asarray(cur.values).tobytes() != before.tobytes() or not _coords_unchanged(cur, snap):
+                rec["out"] = {"raise": "crash:array-changed-by-a-rejected-call"}
+            else:
+                rec["out"] = _axis_exc(e)
+            outs.append(rec)
+            continue
+        rec["out"] = _set_canon(out, cur, dims, shape, snap, before, given, value)
+        outs.append(rec)
+        if st.get("use", "returned") == "returned" and not is_err(rec["out"]):
+            cur = out
+    return {"steps": outs}
+
+
+def _holds_set_session(ctx, h, io):
+    if is_err(io):
+        return "the session driver raised %r" % (io,)
+    for n, (st, rec) in enumerate(zip(h["steps"], io["steps"])):
+        mo = ctx.model("set_value", {"shape": h["shape"], "data": rec["before"], "axes": rec["axes"],
+                                     "query": st["query"], "value": st["value"]})
+        out = {k: v for k, v in rec["out"].items() if k != "trace"}
+        if out != mo:
+            return (f"session step {n}{' (after re-assigning the coordinates of axis %d)' % st['recoord']['axis'] if st.get('recoord') else ''}: "
+                    f"on the content the array had right before the call, set_value_at_pos answers {jkey_short(out)}, "
+                    f"the model {jkey_short(mo)}")
+    return None
+
+
+def jkey_short(x):
+    from ..core import jkey
+    s_ = jkey(x)
+    return s_ if len(s_) <= 200 else s_[:200] + "…"
+
+
 OPS = {
     "range_dim": Op("range_dim", _impl_range, holds=_holds_range,
-                    to_model=lambda i: {k: v for k, v in i.items() if k not in ("argty", "dtype")}),
+                    to_model=lambda i: {k: v for k, v in i.items() if k not in _RANGE_HARNESS_KEYS}),
     "range_free": Op("range_free", _impl_range_free, holds=_holds_range_free, model_op="noop",
                      to_model=lambda inp: {}, compare=lambda inp, io, mo: None, mode="tolerance"),
     "coord_index": Op("coord_index", _impl_index, holds=_holds_index,
@@ -534,10 +1210,25 @@ OPS = {
     "coord_index_dim": Op("coord_index_dim", _impl_index_dim, holds=_holds_index_dim, model_op="noop",
                           compare=lambda inp, io, mo: None,
                           nontrivial=lambda inp, out: not is_err(out) and len(out["val"]["lookups"]) > 0),
+    "coord_index_long": Op("coord_index_long", _impl_index_long, holds=_holds_index_dim, model_op="noop",
+                           compare=lambda inp, io, mo: None,
+                           nontrivial=lambda inp, out: not is_err(out) and len(out["val"]["lookups"]) > 0),
+    "coord_index_derived": Op("coord_index_derived", _impl_index_derived, holds=_holds_index_derived, model_op="noop",
+                              compare=lambda inp, io, mo: None,
+                              nontrivial=lambda inp, out: not is_err(out) and out["val"].get("built", False)),
     # (no separate monitor: the comparison with `coordIndex` is exact and, by C16_index_spec_determines, the same judgement)
     "coord_index_nd": Op("coord_index_nd", _impl_index_nd, model_op="coord_index", to_model=_index_nd_to_model),
     "set_value": Op("set_value", _impl_set, to_model=_set_to_model),
+    "set_session": Op("set_session", _impl_set_session, holds=_holds_set_session, compare=lambda inp, io, mo: None,
+                      no_model=True, nontrivial=lambda inp, out: not is_err(out) and any(
+                          not is_err(r["out"]) for r in out["steps"])),
 }
+OPS["range_history"] = history.history_op(
+    "range_history", OPS["range_dim"], build=lambda inp: {"inp": inp}, call=lambda args: _try(_range_call, args["inp"]),
+    canon=_rh_canon, poison=_rh_poison)
+OPS["index_history"] = history.history_op(
+    "index_history", OPS["coord_index"], build=_ih_build, call=_ih_call, canon=_ih_canon, snapshot=_ih_snapshot,
+    modify=_ih_modify)
 
 
 # ------------------------------------------------------------------ generators
@@ -569,6 +1260,8 @@ def _range_random_cases(rng, n):
             size = rng.choice([1, 2, 4, 8, 16, 3, 5, 10])
             stop = s0 + size * st
             case = {"kind": "range", "start": rat(s0), "stop": rat(stop), "size": size}
+            if rng.random() < 0.3:
+                case["sizety"] = rng.choice(["npint", "np32int", "float", "np64"])
         else:
             sr = rng.choice([1, 2, 4, 8, 256, 1024, Fraction(1, 2), Fraction(1, 4), Fraction(1, 8)])
             stop = s0 + min(cnt, 64) / Fraction(sr)
@@ -702,6 +1395,8 @@ def _index_cases(ctx):
                 extra["raise"], extra["omit_raise"] = True, True
             if len(extra) > 3:
                 yield extra
+            # … and on a coordinate that carries `start` / `stop` / `step` attributes, consistent or stale
+            yield {"coords": rats(ax), "v": rat(q), "raise": rng.random() < 0.5, "cattrs": rng.choice(RANGE_ATTRS)}
     # integer-typed axes and integer queries
     for n in range(1, 6):
         ax = [2 * i - 3 for i in range(n)]
@@ -813,6 +1508,11 @@ def _builds(rng, nd, n_random):
     if perms:
         out += [{"layout": "F", "transpose": perms[-1]}, {"step_attr": True, "transpose": perms[0]},
                 {"form": "dataset", "transpose": perms[0], "nocoord": [nd - 1]}]
+    out += [{"range_attrs": k} for k in RANGE_ATTRS]
+    out += [{"range_attrs": "wide", "corder": rev, "extra": ["scalar"]}, {"range_attrs": "narrow", "form": "assign"}]
+    if nd >= 2:     # the same dimension names on other axes than in the arrays handled before
+        rot = [f"d{(k + 1) % nd}" for k in range(nd)]
+        out += [{"names": rot}, {"names": rot[::-1], "corder": rev}, {"names": rot, "transpose": perms[0], "extra": ["scalar"]}]
     for k in range(nd):
         out.append({"axis_dtype": {str(k): ["float32", "int64"][k % 2]}})
     out.append({"axis_dtype": {str(k): ["int64", "float32"][k % 2] for k in range(nd)}, "corder": rev})
@@ -831,10 +1531,14 @@ def _builds(rng, nd, n_random):
         b["form"] = rng.choice(["dict", "dict", "assign", "dataset"])
         if rng.random() < 0.3:
             b["step_attr"] = True
+        elif rng.random() < 0.3:
+            b["range_attrs"] = rng.choice(RANGE_ATTRS)
         if rng.random() < 0.3:
             b["layout"] = "F"
         if rng.random() < 0.3:
             b["axis_dtype"] = {str(rng.randrange(nd)): rng.choice(["float32", "int64"])}
+        if nd >= 2 and rng.random() < 0.25:
+            b["names"] = [f"d{k}" for k in rng.choice(perms)]
         out.append(b)
     return out
 
@@ -891,6 +1595,8 @@ def _set_cases_built(ctx):
                             case["container"] = rng.choice(["tuple", "ndarray"]) if free else "tuple"
                         elif x < 0.5:
                             case["qty"] = rng.choice(["np64", "np32", "int", "npint"])
+                        elif x < 0.6:
+                            case["call"] = rng.randint(0, 1)      # the array / the value by keyword
                         yield case
             # just outside an axis (within one step of it), alone and together with a valid position
             for k in qable:
@@ -995,6 +1701,272 @@ def _value(rng, kind, free):
     return {"shape": vs, "data": rats(data)}
 
 
+
+def _range_form_cases(rng):
+    """every call form (number of positional arguments 0 … all, in the documented order) x every way of giving the
+    step x dtype x name x further attributes x number type, for the three constructors (options pairwise and more:
+    the whole product on one request per constructor and way of giving the step)"""
+    reqs = [("range", {"step": "1/4"}), ("range", {"size": 6}), ("range", {"step": "1/2", "size": 2}),
+            ("time", {"step": "1/4"}), ("time", {"samplerate": "4"}), ("time", {"step": "1/2", "samplerate": "8"}),
+            ("frequency", {"step": "1/4"})]
+    for kind, how in reqs:
+        nparams = {"range": 6, "time": 6, "frequency": 5}[kind]
+        base = {"kind": kind, "start": "1/2", "stop": "2", **how}
+        for form in range(0, nparams + 1):
+            for dtype in (None, "float32"):
+                for name in (None, "t2"):
+                    for attrs in (False, True):
+                        c = dict(base, call=form)
+                        if dtype:
+                            c["dtype"] = dtype
+                        if name:
+                            c["name"] = name
+                        if attrs:
+                            c["attrs"] = True
+                        yield c
+        # whole numbers: the same request with ints / numpy scalars, every call form
+        for ty in ("int", "npint", "np64", "np32"):
+            for form in (0, 3, nparams):
+                whole = {"kind": kind, "start": "2", "stop": "8", **{k: ("2" if k != "size" else 3) for k in how}}
+                if "samplerate" in whole and "step" not in whole:
+                    whole["samplerate"] = "1"
+                yield dict(whole, call=form, argty=ty)
+    # the dtype written as a type, a string, a numpy dtype, a type code; the default dtype given explicitly
+    for kind, how in reqs:
+        for dtyform in ("str", "npdtype", "code", "builtin"):
+            for dtype in (None, "float32"):
+                c = {"kind": kind, "start": "1/2", "stop": "2", **how, "dtyform": dtyform, "call": rng.choice([0, 3, 6])}
+                if dtype:
+                    c["dtype"] = dtype
+                yield c
+    # the size as int / numpy int / whole float, with a step that is no whole number, every number type of the bounds
+    for sizety in (None, "npint", "np32int", "float", "np64"):
+        for ty in (None, "int", "npint", "np64"):
+            for start, stop, size in (("0", "1", 4), ("1", "4", 2), ("-3", "0", 8), ("0", "3", 3)):
+                c = {"kind": "range", "start": start, "stop": stop, "size": size, "call": rng.choice([0, 3, 5])}
+                if sizety:
+                    c["sizety"] = sizety
+                if ty:
+                    c["argty"] = {"start": ty, "stop": ty}
+                yield c
+    # malformed requests in every form
+    for form in (0, 2, 3, 6):
+        yield {"kind": "range", "start": "0", "stop": "1", "call": form}
+        yield {"kind": "time", "start": "0", "stop": "1", "call": form}
+        yield {"kind": "range", "start": "0", "stop": "1", "step": "0", "call": form}
+        yield {"kind": "time", "start": "0", "stop": "1", "samplerate": "0", "call": form}
+
+
+def _range_eps_cases():
+    """tolerance-sized offsets around the two comparisons of the range constructors - the whole quotient (where the
+    length of the arange changes) and the half quotient (where the trailing-point rule decides) - at small and large
+    magnitudes: stop = start + (m/2) * step +- eps, eps = 2^-20, 2^-30, 2^-40 of the magnitude of stop (about 1e-6,
+    1e-9, 1e-12), kept only where every number is a binary64 number (the comparison stays exact)"""
+    starts = [Fraction(0), Fraction(13, 4), Fraction(2 ** 20) + Fraction(1, 2), Fraction(-(2 ** 10)), Fraction(2 ** 30)]
+    steps = [Fraction(1, 4), Fraction(3, 4), Fraction(1), Fraction(5, 2)]
+    for s0 in starts:
+        for st in steps:
+            for m in range(0, 7):
+                base = s0 + st * m / 2
+                mag = Fraction(2) ** max(0, math.ceil(math.log2(max(1, abs(float(base))))))
+                for e in (20, 30, 40):
+                    for sgn in (1, -1):
+                        stop = base + sgn * mag / 2 ** e
+                        if Fraction(float(stop)) != stop or stop < s0:
+                            continue
+                        yield {"kind": "range", "start": rat(s0), "stop": rat(stop), "step": rat(st)}
+
+
+def _range_long_cases(rng):
+    """whole and half quotients with 2^k - 1, 2^k, 2^k + 1 coordinates (k = 4, 8, 10, 11, 12): exact on the grid"""
+    for n in (15, 16, 17, 255, 256, 257, 1023, 1024, 1025, 2047, 2048, 2049, 4096, 4097):
+        st, s0 = rng.choice([(Fraction(1, 4), Fraction(0)), (Fraction(3, 8), Fraction(-5, 2)), (Fraction(1, 64), Fraction(7))])
+        half = rng.choice([0, 0, 1]) * st / 2
+        how = rng.choice(["step", "step", "size", "samplerate", "frequency"])
+        if how == "size":
+            yield {"kind": "range", "start": rat(s0), "stop": rat(s0 + n * st), "size": n}
+        elif how == "samplerate":
+            yield {"kind": "time", "start": rat(s0), "stop": rat(s0 + Fraction(n, 64) + half / 16), "samplerate": "64"}
+        elif how == "frequency":
+            yield {"kind": "frequency", "start": rat(s0), "stop": rat(s0 + n * st + half), "step": rat(st)}
+        else:
+            yield {"kind": "range", "start": rat(s0), "stop": rat(s0 + n * st + half), "step": rat(st),
+                   **({"dtype": "float32"} if n == 1024 else {})}
+
+
+def _index_long_cases(ctx):
+    """every lattice point of a few non-dyadic axes (all coordinates, both float neighbours, every midpoint), and
+    axes of 2^k - 1, 2^k, 2^k + 1 and more than 1024 / 4096 points with every coordinate looked up"""
+    rng = ctx.rng
+
+    def sample(n):
+        return sorted(rng.sample(range(n), min(n, 12)))
+    for step, start, n, make in ((0.01, 0.0, 1025, "lib"), (1 / 44100, 0.3, 1025, "np"), (0.1, 0.0, 257, "np"),
+                                 (1 / 3, 0.3, 257, "lib"), (0.01, 1e6, 300, "np"), (1e-7, 0.0, 300, "lib")):
+        yield {"start": rat(start), "step": rat(step), "n": n, "make": make, "sweep": "full", "sample": sample(n)}
+    # tolerance-sized offsets (1e-6 … 1e-12 of the spacing and of the magnitude) on both sides of every coordinate
+    # and beyond both ends of the small hand-made axes (decimal, thirds, huge, tiny, random at four magnitudes,
+    # adjacent floats, a repeated coordinate)
+    for ax in _axes_pool(rng, ctx.budget(2, 20)):
+        yield {"coords": rats(ax), "sweep": "full", "sample": list(range(len(ax)))}
+    sizes = [15, 16, 17, 255, 256, 1023, 1024, 2047, 2048, 2049, 4099]
+    if ctx.thorough():
+        sizes += [8191, 8192, 8193, 65537]
+    for n in sizes:
+        step, start = rng.choice([(0.01, 0.0), (0.004, 12.7), (1 / 22050, 0.0), (0.3, -1.3)])
+        yield {"start": rat(start), "step": rat(step), "n": n, "make": rng.choice(["lib", "np"]), "sweep": "coords",
+               "sample": sample(n)}
+
+
+def _index_form_cases(rng):
+    """get_coord_index in every call form x flag given as bool / int / numpy bool / left out x inside, on the upper
+    edge, beyond both ends x value types"""
+    axes = [[Fraction(0), Fraction(1, 2), Fraction(3, 2)], [Fraction(-3)], [Fraction(1, 4) * i for i in range(5)]]
+    for ax in axes:
+        gap = ax[1] - ax[0] if len(ax) > 1 else Fraction(1)
+        for v in (ax[0], ax[-1], ax[0] + gap / 4, ax[-1] + gap / 2, ax[0] - gap / 2):
+            for raise_ in (True, False):
+                for form in range(0, 5):
+                    for rty in (None, "int", "npbool"):
+                        c = {"coords": rats(ax), "v": rat(v), "raise": raise_, "call": form}
+                        if rty:
+                            c["rty"] = rty
+                        yield c
+                    if raise_:
+                        yield {"coords": rats(ax), "v": rat(v), "raise": True, "omit_raise": True, "call": min(form, 3)}
+            for qty in ("np64", "np32", "int", "npint"):
+                if _fits(float(v), qty):
+                    yield {"coords": rats(ax), "v": rat(v), "raise": rng.random() < 0.5, "qty": qty, "call": rng.randint(0, 4)}
+
+
+def _range_history_cases(ctx):
+    rng = ctx.rng
+    base = [c for c in _range_random_cases(rng, ctx.budget(80, 800))]
+    base += [{"kind": "range", "start": "0", "stop": "1", "step": "1/4"}, {"kind": "time", "start": "0", "stop": "2", "samplerate": "4"},
+             {"kind": "frequency", "start": "0", "stop": "1000", "step": "250"}, {"kind": "range", "start": "1/2", "stop": "2", "size": 6}]
+    hs = history.sequences(rng, base, ctx.budget(120, 1200), variants=_rh_variants, poison=True)
+    for i, h in enumerate(hs):
+        # every history gets numbers of its own (shifted by a whole offset): whatever an earlier history left behind
+        # in the process cannot be met again, so a failing history is reproduced by replaying it alone
+        off = 8 * (i + 1)
+        for st in h["seq"]:
+            c = st["inp"]
+            st["inp"] = _sane_range_case({**c, "start": rat(frac(c["start"]) + off), "stop": rat(frac(c["stop"]) + off)})
+            ctx.tally("history:range:" + ("fresh+poison" if st.get("poison") else "fresh"))
+    return hs
+
+
+def _index_history_cases(ctx):
+    rng = ctx.rng
+    base = []
+    for ax in _axes_pool(rng, 1):
+        if len(ax) < 1 or any(b <= a for a, b in zip(ax, ax[1:])):
+            continue
+        q = rng.choice(_queries(ax))
+        c = {"coords": rats(ax), "v": rat(q), "raise": rng.random() < 0.6}
+        x = rng.random()
+        if x < 0.2:
+            c["call"] = rng.randint(0, 4)
+        elif x < 0.35 and c["raise"]:
+            c["omit_raise"] = True
+        elif x < 0.5:
+            c["qty"] = rng.choice(["np64", "int", "npint"])
+        if rng.random() < 0.4:       # attributes that describe the axis now and go stale with `copy_data`
+            c["cattrs"] = rng.choice(["consistent", "end", "eps"])
+        base.append(c)
+    hs = history.sequences(rng, base, ctx.budget(160, 1600), variants=_ih_variants, reuse_hows=IH_REUSE)
+    for h in hs:
+        for st in h["seq"]:
+            ctx.tally("history:index:" + (st.get("reuse") or "fresh"))
+    return hs
+
+
+def _set_session_cases(ctx):
+    """sessions of 3-5 writes into one live array (every construction path of 2-D / 3-D arrays among them), with
+    the coordinates of an axis re-assigned between calls, rejected calls in between, both ways of carrying on"""
+    rng = ctx.rng
+    for shape in ND_SHAPES:
+        nd = len(shape)
+        builds = _builds(rng, nd, 2)
+        for b in rng.sample(builds, min(len(builds), ctx.budget(6, 30))) + [{}]:
+            if b.get("axis_dtype"):
+                continue
+            axes = _built_axes(rng, shape, b)
+            axes0 = [rats(a) for a in axes]
+            qable = [k for k in range(nd) if k not in b.get("nocoord", ())]
+            steps = []
+            for _ in range(rng.randint(3, 5)):
+                st = {}
+                if qable and steps and rng.random() < 0.45:
+                    k = rng.choice(qable)
+                    a0, stp = Fraction(rng.randint(-8, 8), 4), Fraction(rng.choice([1, 2, 3, 5]), 4)
+                    axes = [list(a) for a in axes]
+                    axes[k] = [a0 + i * stp for i in range(shape[k])]
+                    how = rng.choice(["setitem", "assign", "copy_data"])
+                    if (b.get("step_attr") or b.get("range_attrs")) and how != "setitem":
+                        how = "setitem"       # (a re-assigned axis drops the attribute that described the old one)
+                    st["recoord"] = {"axis": k, "coords": rats(axes[k]), "how": how}
+                    ctx.tally("session:recoord:" + how)
+                q, v = _rand_write(rng, shape, axes, qable, outside=0.15)
+                if steps and rng.random() < (0.6 if st.get("recoord") else 0.2):
+                    # the very query of an earlier call again (x, a neighbour, x again): on re-assigned coordinates it
+                    # addresses another cell or lies outside now
+                    prev = rng.choice(steps)
+                    q = [list(e) for e in prev["query"]]
+                    free = [shape[k] for k in range(nd) if k not in [e[0] for e in q]]
+                    v = prev["value"] if rng.random() < 0.5 else _value(rng, "scalar", free)
+                    ctx.tally("session:query-repeated")
+                st.update(query=q, value=v)
+                x = rng.random()
+                if x < 0.2:
+                    st["use"] = "given"
+                if x > 0.7:      # (a sequence into a single cell is rejected as a list / tuple only: no ndarray there)
+                    st["container"] = rng.choice(["tuple", "ndarray"]) if len(st["query"]) < nd else "tuple"
+                if rng.random() < 0.3:
+                    st["call"] = rng.randint(0, 2)
+                steps.append(st)
+                ctx.tally("session:write")
+            case = {"shape": list(shape), "data": rats(range(1, math.prod(shape) + 1)),
+                    "axes": axes0, "steps": steps}
+            if b:
+                case["build"] = b
+            yield case
+
+
+
+def _index_derived_cases(ctx):
+    """arrays that went through the library's own extend_dim / crop_dim / adjust_dim_range / set_dim_attrs (and
+    sel / isel / re-labelling afterwards): their coordinates carry `start` / `stop` attributes, eps-shifted or stale"""
+    rng = ctx.rng
+    bases = [("time", 0.0, 1.0, 0.1), ("time", 0.0, 2.0, 0.25), ("frequency", 0.0, 1000.0, 125.0),
+             ("range", 0.5, 1.5, 0.125), ("time", 5.0, 5.5, 0.05)]
+    for kind, a, b, st in bases:
+        span = b - a
+        chains = [
+            [("extend_dim", [a - 3 * st, None])], [("extend_dim", [None, b + 3 * st])],
+            [("extend_dim", [a - 2 * st, b + 2 * st])],
+            [("crop_dim", [a + 2 * st, b - 3 * st])],
+            [("extend_dim", [a - 3 * st, b + 3 * st]), ("crop_dim", [a + st, b - 2 * st])],
+            [("extend_dim", [a - 3 * st, None]), ("crop_dim", [None, b - 4 * st])],
+            [("adjust_dim_range", [a - 3 * st, a + span / 2])], [("adjust_dim_range", [a + 2 * st, b + 3 * st])],
+            [("adjust_dim_range", [a - 2 * st, b + 2 * st])],
+            [("set_dim_attrs", [a, b])], [("set_dim_attrs", [a - 2 * st, b + 2 * st])],
+            [("set_dim_attrs", [a + 2 * st, b - 3 * st])],
+            [("set_dim_attrs", [a, b]), ("isel", [2, -2])], [("set_dim_attrs", [a, b]), ("sel", [a + st, b - 2 * st])],
+            [("extend_dim", [a - 2 * st, b + 2 * st]), ("isel", [1, -3])],
+            [("extend_dim", [None, b + 2 * st]), ("shift", [10 * st])],
+            [("set_dim_attrs", [a, b]), ("shift", [-3 * st])],
+        ]
+        for _ in range(ctx.budget(2, 20)):
+            lo, hi = sorted(rng.sample(range(-4, int(span / st) + 5), 2))
+            second = rng.choice([("isel", [1, -1]), ("isel", [0, -2]), ("shift", [st]), ("shift", [-2 * st])])
+            chains.append([(rng.choice(["adjust_dim_range", "extend_dim"]), [a + lo * st, a + hi * st]), second])
+        for ch in chains:
+            yield {"range": {"kind": kind, "start": rat(a), "stop": rat(b), "step": rat(st)},
+                   "chain": [[op, list(args) if op == "isel" else [None if x is None else rat(float(x)) for x in args]]
+                             for op, args in ch]}
+
+
 def _stage_ranges(ctx):
     ctx.run_cases(OPS["range_dim"], _range_grid_cases())
     ctx.exhaustive["range_dim grid"] = "4 starts x 5 dyadic steps x stop = start + m*step/4, m = 0..24 (every quotient fraction)"
@@ -1013,6 +1985,15 @@ def _stage_index_dim(ctx):
     ctx.exhaustive["coord_index_dim"] = ("axes built by create_range_dim / create_time_range / create_frequency_range with "
                                          "steps 0.1, 0.01, 1/3, 1/44100, ...: every coordinate, its two float neighbours and "
                                          "every midpoint looked up, judged by the Lean index statement")
+
+
+def _stage_index_derived(ctx):
+    ctx.run_cases(OPS["coord_index_derived"], _index_derived_cases(ctx))
+    ctx.exhaustive["coord_index_derived"] = ("time / frequency / plain range axes put through extend_dim, crop_dim, "
+                                             "adjust_dim_range, set_dim_attrs (consistent and stale `start` / `stop`), "
+                                             "then isel / sel / re-labelling: every coordinate, float neighbours, "
+                                             "midpoints, up to two steps beyond both ends and the values the "
+                                             "attributes mention looked up (raise and clamp) and written at")
 
 
 def _stage_index_nd(ctx):
@@ -1040,15 +2021,92 @@ def _stage_set(ctx):
                                    "index; scalar / exact / broadcast / unbroadcastable values")
 
 
+
+def _sig_table(fn):
+    """the signature of a function as a Lean `SE.Axis.Sig` term (None when it has a parameter the table cannot
+    express: positional-only, keyword-only, *args)"""
+    import inspect
+    ps, varkw = [], False
+    for prm in inspect.signature(fn).parameters.values():
+        if prm.kind is inspect.Parameter.VAR_KEYWORD:
+            varkw = True
+        elif prm.kind is inspect.Parameter.POSITIONAL_OR_KEYWORD:
+            if prm.default is inspect.Parameter.empty:
+                ps.append(f'.req "{prm.name}"')
+            else:
+                d = prm.default
+                txt = d.__name__ if isinstance(d, type) else (d if isinstance(d, str) else repr(d))
+                txt = "".join(ch for ch in str(txt) if ch.isalnum() or ch in "_.-")[:40]
+                ps.append(f'.opt "{prm.name}" "{txt}"')
+        else:
+            return None
+    return "({ params := [" + ", ".join(ps) + f"], varkw := {'true' if varkw else 'false'} }} : SE.Axis.Sig)"
+
+
+def _stage_signatures(ctx):
+    """Tie 1: the parameter tables of the five functions (order, names, defaults), read off the imported functions,
+    are the documented tables `rangeSig` … `setSig` of the Lean model, possibly followed by further parameters that
+    have defaults (`Sig.Extends`), without a repeated name; `C16_call_forms` is the general theorem about such tables
+    (every positional / keyword split of a call binds alike, positional argument i goes to parameter i),
+    `C16_sig_extends` says an extended table binds the documented calls as the documented table does"""
+    from soundevent import arrays
+    for fname, ref, op in (("create_range_dim", "rangeSig", "range_dim"), ("create_time_range", "timeSig", "range_dim"),
+                           ("create_frequency_range", "freqSig", "range_dim"), ("get_coord_index", "indexSig", "coord_index"),
+                           ("set_value_at_pos", "setSig", "set_value")):
+        name = f"sig_{fname}"
+        fn = getattr(arrays, fname, None)
+        term = None
+        try:
+            term = _sig_table(fn) if fn is not None else None
+        except Exception:  # noqa: BLE001
+            term = None
+        if term is None:
+            ctx.pre_failed.append(name)
+            ctx.fail("obligation", name, detail=f"the signature of {fname} cannot be read off as a table of "
+                     "positional-or-keyword parameters", extra={"op": op})
+            continue
+        ctx.obligation(name, f"theorem {name} : SE.Axis.Sig.Extends {term} SE.Axis.{ref} = true ∧ "
+                             f"SE.Axis.Sig.WellFormed {term} := by decide", {"op": op})
+
+
+def _stage_call_forms(ctx):
+    ctx.run_cases(OPS["range_dim"], _range_form_cases(ctx.rng))
+    ctx.run_cases(OPS["coord_index"], _index_form_cases(ctx.rng))
+    ctx.exhaustive["call forms"] = ("create_range_dim / create_time_range / create_frequency_range: 0 … all arguments "
+                                    "positional (documented order) x way of giving the step x dtype x name x further "
+                                    "attributes; get_coord_index: 0 … 4 positional x flag as bool / int / numpy bool / "
+                                    "omitted x inside / edge / beyond; set_value_at_pos: array / value by keyword")
+
+
+def _stage_boundaries(ctx):
+    ctx.run_cases(OPS["range_dim"], _range_eps_cases())
+    ctx.run_cases(OPS["range_dim"], _range_long_cases(ctx.rng))
+    ctx.run_cases(OPS["coord_index_long"], _index_long_cases(ctx))
+    ctx.exhaustive["range_dim thresholds"] = ("5 starts (0 … 2^30) x 4 steps x quotient m/2, m = 0..6, +- 2^-20 / 2^-30 / "
+                                              "2^-40 of the magnitude; 2^k - 1, 2^k, 2^k + 1 coordinates up to 4097")
+    ctx.exhaustive["coord_index_long"] = ("every lattice point (coordinate, both float neighbours, midpoint) of axes with "
+                                          "steps 0.01, 1/44100 (1025 points), 0.1, 1/3 (257), 0.01 at 1e6, 1e-7; every "
+                                          "coordinate of axes with 15 … 4099 points (2^k - 1, 2^k, 2^k + 1)")
+
+
+def _stage_histories(ctx):
+    """consecutive calls in one process (HISTORIES.md 1): range requests and their neighbours with results poisoned
+    and re-read, lookups on arrays whose coordinates are re-assigned, sessions of writes into one live array"""
+    ctx.run_cases(OPS["range_history"], _range_history_cases(ctx))
+    ctx.run_cases(OPS["index_history"], _index_history_cases(ctx))
+    ctx.run_cases(OPS["set_session"], _set_session_cases(ctx))
+
+
 def _stage_kernels(ctx):
     """Tie 1b: the kernels of the five functions, traced from the current source, equal the model's kernels
-    for all rationals (49 obligations; `C16_range_kernel`, `C16_index_kernel`, `C16_indexer_kernel`,
+    for all rationals (62 obligations; `C16_range_kernel`, `C16_index_kernel`, `C16_indexer_kernel`,
     `C16_set_kernel` connect the kernels with the model the other theorems are about)"""
     from .. import c16_sym
     ctx.stage("kernel-range", c16_sym.range_ties, ctx)
     ctx.stage("kernel-index", c16_sym.index_ties, ctx)
     ctx.stage("kernel-set", c16_sym.set_ties, ctx)
-    ctx.discharge(["SoundeventModel.Axis", "SoundeventModel.AxisKernel", "SoundeventModel.Tactics"])
+    ctx.stage("signatures", _stage_signatures, ctx)
+    ctx.discharge(["SoundeventModel.Axis", "SoundeventModel.AxisKernel", "SoundeventModel.AxisCalls", "SoundeventModel.Tactics"])
 
 
 def run(ctx):
@@ -1058,15 +2116,20 @@ def run(ctx):
     ctx.stage("range-free-monitor", lambda: ctx.run_cases(OPS["range_free"], _range_free_cases(ctx)))
     ctx.stage("coord-index", _stage_index, ctx)
     ctx.stage("coord-index-on-range-dims", _stage_index_dim, ctx)
+    ctx.stage("coord-index-derived-arrays", _stage_index_derived, ctx)
     ctx.stage("coord-index-nd", _stage_index_nd, ctx)
     ctx.stage("set-value", _stage_set, ctx)
     ctx.stage("set-value-construction-paths", _stage_set_built, ctx)
+    ctx.stage("call-forms", _stage_call_forms, ctx)
+    ctx.stage("boundaries", _stage_boundaries, ctx)
+    ctx.stage("histories", _stage_histories, ctx)
 
 
 def search(ctx, failures):
     ctx.run_cases(OPS["range_dim"], _range_random_cases(ctx.rng, 5000))
     ctx.run_cases(OPS["coord_index"], _index_cases(ctx))
     ctx.run_cases(OPS["coord_index_dim"], _index_dim_cases(ctx))
+    ctx.run_cases(OPS["coord_index_derived"], _index_derived_cases(ctx))
     ctx.run_cases(OPS["coord_index_nd"], _index_nd_cases(ctx, 12))
     ctx.run_cases(OPS["set_value"], _set_cases(ctx))
     ctx.run_cases(OPS["set_value"], _set_cases_built(ctx))
